@@ -270,6 +270,8 @@ class C02(MsgProp):
         yield ("DEC " + hx(mk_frame(b"")), "empty", False)
         for b in range(256):
             yield ("DEC " + hx(mk_frame(bytes([b]))), "one-byte-payload", True)
+        for s in preamble_floods(r)[:3]:
+            yield ("XITER " + hx(s), "false-preamble-flood", True)
         # frames the real encoder produces from generated values of every type (text with 1..4-byte characters,
         # lists at every length class, MSM sets, bias lists), and variants of them with the checksum recomputed:
         # the decoder paths behind a *valid* prefix, which random payloads hardly ever reach
